@@ -121,6 +121,25 @@ def compare_errors(rel, impl_err, model_val, scale):
     return None
 
 
+def np_reduce(rel, E):
+    """the definition of the statement, evaluated with plain numpy on a relative pose E (independent of evo and of the
+    Coq model): used to decide whether a model/implementation disagreement is a violation of the property"""
+    R = E[:3, :3]
+    if rel in ("translation_part", "point_distance"):
+        return float(np.linalg.norm(E[:3, 3]))
+    if rel == "rotation_part":
+        return float(np.linalg.norm(R - np.eye(3)))
+    if rel == "full_transformation":
+        return float(np.linalg.norm(E - np.eye(4)))
+    w = np.array([R[2, 1] - R[1, 2], R[0, 2] - R[2, 0], R[1, 0] - R[0, 1]])
+    ang = math.atan2(float(np.linalg.norm(w)) / 2.0, (float(np.trace(R)) - 1.0) / 2.0)
+    return math.degrees(ang) if rel == "rotation_angle_deg" else ang
+
+
+def np_ape(rel, ref, est):
+    return [np_reduce(rel, np.linalg.inv(q) @ p) for q, p in zip(ref, est)]
+
+
 # ------------------------------------------------------------------ implementation side
 def _scratch():
     return tempfile.mkdtemp(prefix="evo_verif_c01_")
@@ -370,6 +389,10 @@ def judge(case, val, out):
                 return _sv("sequences of different length were not refused")
             if impl_err is not None and not n_ok:
                 return _sv("not exactly one value per pose: " + d)
+            if impl_err is not None and compare_errors(rel, np_ape(rel, ref, [U(p, (4, 4)) for p in case["est"]]), val, scale) is None:
+                # the Coq model and an independent numpy evaluation of the definition agree with each other
+                return _sv("a value is not the definition applied to its reference/estimate pair (Coq model and an independent "
+                           "numpy evaluation agree): " + d)
             return _mv(d)
         if "again" in out and out["again"] != out["error"]:
             return _sv("a metric object that had processed other data before returns different values (%d instead of %d)"
